@@ -11,6 +11,7 @@ import (
 	"os"
 	"strings"
 
+	"github.com/emersion/go-smtp"
 	"github.com/foxcpp/maddy/framework/exterrors"
 	"pgregory.net/rapid"
 )
@@ -18,7 +19,8 @@ import (
 // ErrNode is a generated error value in data form (JSON-serialisable); Build
 // constructs the real error from maddy's wrapping primitives.
 type ErrNode struct {
-	// leaf kinds: plain eof dns-temp dns-timeout dns-notfound net-timeout deadline
+	// leaf kinds: plain eof dns-temp dns-timeout dns-notfound net-timeout deadline gosmtp
+	// (gosmtp: a reply of a downstream server as go-smtp's client returns it, *smtp.SMTPError, possibly without enhanced code)
 	// wrapper kinds: smtp smtp-helper temp fields fmtw
 	Kind   string   `json:"kind"`
 	Code   int      `json:"code,omitempty"`   // smtp: basic code; smtp-helper: unused
@@ -50,22 +52,42 @@ var markers = []string{
 	"sql: no rows in result set", "table users_db lookup failed", "ldap bind cn=admin,dc=corp failed", "секрет-внутри",
 }
 
-// GenErr draws an error tree of at most the given depth.
-func GenErr(t *rapid.T, depth int) *ErrNode {
+// downstream reply texts (never the text of a maddy annotation)
+var downstreamTexts = []string{"mailbox unknown at backend-17.internal", "Authentication credentials invalid", "greylisted by rspamd-3.corp, come back later", "отказано сервером db-2"}
+
+// GenErr draws an error tree of at most the given depth. A downstream reply (gosmtp) only occurs below a wrapper.
+func GenErr(t *rapid.T, depth int) *ErrNode { return genErr(t, depth, false) }
+
+// GenErrDownstream: as GenErr, and the whole error may be a bare downstream reply (what a target returns
+// when it passes on the error of its SMTP client).
+func GenErrDownstream(t *rapid.T, depth int) *ErrNode { return genErr(t, depth, true) }
+
+func genErr(t *rapid.T, depth int, gosmtpHere bool) *ErrNode {
 	leaf := depth <= 1 || rapid.IntRange(0, 3).Draw(t, "leaf") == 0
 	if leaf {
-		k := rapid.SampledFrom([]string{"plain", "plain", "eof", "dns-temp", "dns-timeout", "dns-notfound", "net-timeout", "deadline", "smtp", "smtp"}).Draw(t, "leafkind")
+		kinds := []string{"plain", "plain", "eof", "dns-temp", "dns-timeout", "dns-notfound", "net-timeout", "deadline", "smtp", "smtp"}
+		if gosmtpHere {
+			kinds = append(kinds, "gosmtp", "gosmtp")
+		}
+		k := rapid.SampledFrom(kinds).Draw(t, "leafkind")
 		n := &ErrNode{Kind: k}
 		switch k {
 		case "plain":
 			n.Marker = rapid.SampledFrom(markers).Draw(t, "marker")
 		case "smtp":
 			fillSMTP(t, n)
+		case "gosmtp":
+			c := rapid.SampledFrom(smtpCodes).Draw(t, "code")
+			n.Code, n.Ench = c.Code, c.Ench
+			if rapid.IntRange(0, 2).Draw(t, "no_enhanced_code") == 0 {
+				n.Ench = [3]int{} // the reply had none: go-smtp's EnhancedCodeNotSet
+			}
+			n.Msg = rapid.SampledFrom(downstreamTexts).Draw(t, "text")
 		}
 		return n
 	}
 	k := rapid.SampledFrom([]string{"smtp", "smtp", "smtp-helper", "smtp-helper", "temp", "temp", "fields", "fmtw"}).Draw(t, "wrapkind")
-	n := &ErrNode{Kind: k, Child: GenErr(t, depth-1)}
+	n := &ErrNode{Kind: k, Child: genErr(t, depth-1, true)}
 	switch k {
 	case "smtp":
 		fillSMTP(t, n)
@@ -111,6 +133,8 @@ func (n *ErrNode) Build() error {
 		return &net.OpError{Op: "read", Net: "tcp", Err: os.ErrDeadlineExceeded}
 	case "deadline":
 		return context.DeadlineExceeded
+	case "gosmtp":
+		return &smtp.SMTPError{Code: n.Code, EnhancedCode: smtp.EnhancedCode{n.Ench[0], n.Ench[1], n.Ench[2]}, Message: n.Msg}
 	case "smtp":
 		return &exterrors.SMTPError{Code: n.Code, EnhancedCode: exterrors.EnhancedCode{n.Ench[0], n.Ench[1], n.Ench[2]}, Message: n.Msg, Reason: n.Reason, Err: n.Child.Build()}
 	case "smtp-helper":
@@ -135,7 +159,7 @@ func (n *ErrNode) Build() error {
 func (n *ErrNode) Temporary() (temp, specified bool) {
 	for ; n != nil; n = n.Child {
 		switch n.Kind {
-		case "smtp":
+		case "smtp", "gosmtp":
 			return n.Code/100 == 4, true
 		case "smtp-helper":
 			t, s := n.Child.Temporary()
@@ -189,6 +213,9 @@ func (n *ErrNode) Markers() []string {
 		if n.Reason != "" {
 			out = append(out, n.Reason)
 		}
+		if n.Kind == "gosmtp" {
+			out = append(out, n.Msg)
+		}
 		switch n.Kind {
 		case "dns-temp", "dns-timeout", "dns-notfound":
 			out = append(out, "10.9.8.7", "mx.example.org")
@@ -225,6 +252,8 @@ func (n *ErrNode) String() string {
 			parts = append(parts, fmt.Sprintf("smtp-helper(%d|%d x.%d.%d)", n.TCode, n.PCode, n.Ench[1], n.Ench[2]))
 		case "temp":
 			parts = append(parts, fmt.Sprintf("temp(%v)", n.Temp))
+		case "gosmtp":
+			parts = append(parts, fmt.Sprintf("downstream-reply(%d %d.%d.%d %q)", n.Code, n.Ench[0], n.Ench[1], n.Ench[2], n.Msg))
 		default:
 			parts = append(parts, n.Kind)
 		}
